@@ -1,1 +1,456 @@
-//! Verification doors: icmp (cfg(trusttunnel_verif) only)
+//! Verification doors: ICMP message (de)serialisation, the 7.4 reply encoder, and the real
+//! `IcmpForwarder` with its per-client multiplexer halves (cfg(trusttunnel_verif) only)
+
+use crate::http_datagram_codec::{DecodeResult, Decoder as _, Encoder as _};
+use crate::{
+    datagram_pipe, downstream, forwarder, http_icmp_codec, icmp_forwarder, icmp_utils, log_utils,
+    settings,
+};
+use bytes::Bytes;
+use std::io;
+use std::net::IpAddr;
+use std::sync::{Arc, Mutex};
+use std::time::Duration;
+use tokio::sync::mpsc;
+
+// ---------------------------------------------------------------------------------------
+// plain-data doors
+
+/// Serialise an echo request (ICMP type 8 / ICMPv6 type 128) with the given payload
+pub fn echo_serialize(v4: bool, identifier: u16, sequence_number: u16, data: &[u8]) -> Vec<u8> {
+    make_echo_message(v4, identifier, sequence_number, Bytes::copy_from_slice(data))
+        .serialize()
+        .to_vec()
+}
+
+fn make_echo_message(v4: bool, identifier: u16, sequence_number: u16, data: Bytes) -> icmp_utils::Message {
+    let echo = icmp_utils::Echo {
+        code: 0,
+        identifier,
+        sequence_number,
+        data,
+    };
+    if v4 {
+        icmp_utils::Message::V4(icmp_utils::v4::Message::Echo(echo))
+    } else {
+        icmp_utils::Message::V6(icmp_utils::v6::Message::EchoRequest(echo))
+    }
+}
+
+/// The echo request a message answers (`responded_echo_request`)
+#[derive(Debug, Clone, PartialEq, Eq)]
+pub struct EchoView {
+    pub identifier: u16,
+    pub sequence_number: u16,
+    pub data: Vec<u8>,
+}
+
+/// Plain view of a deserialised ICMP / ICMPv6 message
+#[derive(Debug, Clone, PartialEq, Eq)]
+pub struct MsgView {
+    pub type_id: u8,
+    pub code: u8,
+    pub len: usize,
+    pub responded: Option<EchoView>,
+}
+
+fn error_class(e: &icmp_utils::DeserializeError) -> &'static str {
+    match e {
+        icmp_utils::DeserializeError::InvalidLength(_) => "InvalidLength",
+        icmp_utils::DeserializeError::MessageType(_) => "MessageType",
+        icmp_utils::DeserializeError::DestinationUnreachableCode(_) => "DestinationUnreachableCode",
+        icmp_utils::DeserializeError::TimeExceededCode(_) => "TimeExceededCode",
+    }
+}
+
+fn deserialize_message(v4: bool, packet: &[u8]) -> Result<icmp_utils::Message, &'static str> {
+    let packet = Bytes::copy_from_slice(packet);
+    if v4 {
+        icmp_utils::v4::Message::deserialize(packet)
+            .map(icmp_utils::Message::from)
+            .map_err(|e| error_class(&e))
+    } else {
+        icmp_utils::v6::Message::deserialize(packet)
+            .map(icmp_utils::Message::from)
+            .map_err(|e| error_class(&e))
+    }
+}
+
+/// `v4/v6::Message::deserialize` followed by `responded_echo_request`
+pub fn deserialize(v4: bool, packet: &[u8]) -> Result<MsgView, &'static str> {
+    let m = deserialize_message(v4, packet)?;
+    Ok(MsgView {
+        type_id: m.type_id(),
+        code: m.code(),
+        len: m.len(),
+        responded: m.responded_echo_request().map(|e| EchoView {
+            identifier: e.identifier,
+            sequence_number: e.sequence_number,
+            data: e.data.to_vec(),
+        }),
+    })
+}
+
+/// What the endpoint sends to the client (PROTOCOL.md 7.4) for a packet received from `peer`:
+/// `Err` = the packet is dropped as malformed, `Ok(None)` = not encodable (answers no echo request)
+pub fn encode_reply(v4: bool, peer: IpAddr, packet: &[u8]) -> Result<Option<Vec<u8>>, &'static str> {
+    let message = deserialize_message(v4, packet)?;
+    Ok(http_icmp_codec::Encoder::default()
+        .encode_packet(&forwarder::IcmpDatagram {
+            meta: forwarder::IcmpDatagramMeta { peer },
+            message,
+        })
+        .map(|b| b.to_vec()))
+}
+
+/// Plain view of a decoded 7.3 request record
+#[derive(Debug, Clone, PartialEq, Eq)]
+pub struct ReqView {
+    pub peer: IpAddr,
+    pub is_v4_message: bool,
+    pub identifier: u16,
+    pub sequence_number: u16,
+    pub ttl: u8,
+    pub data_len: usize,
+    pub code: u8,
+}
+
+/// `http_icmp_codec::Decoder` with its buffer fill level visible
+pub struct ReqDecoder(http_icmp_codec::Decoder);
+
+impl Default for ReqDecoder {
+    fn default() -> Self {
+        Self::new()
+    }
+}
+
+impl ReqDecoder {
+    pub fn new() -> Self {
+        Self(http_icmp_codec::Decoder::new())
+    }
+
+    /// One call of `decode_chunk`: the request (if one completed) and the unprocessed tail
+    pub fn decode_chunk(&mut self, data: &[u8]) -> (Option<ReqView>, Vec<u8>) {
+        match self.0.decode_chunk(Bytes::copy_from_slice(data)) {
+            DecodeResult::WantMore => (None, Vec::new()),
+            DecodeResult::Complete(d, tail) => {
+                let (is_v4, echo) = match &d.message {
+                    icmp_utils::Message::V4(icmp_utils::v4::Message::Echo(e)) => (true, e),
+                    icmp_utils::Message::V6(icmp_utils::v6::Message::EchoRequest(e)) => (false, e),
+                    _ => panic!("verif: unexpected message kind from the ICMP decoder"),
+                };
+                (
+                    Some(ReqView {
+                        peer: d.meta.peer,
+                        is_v4_message: is_v4,
+                        identifier: echo.identifier,
+                        sequence_number: echo.sequence_number,
+                        ttl: d.ttl,
+                        data_len: echo.data.len(),
+                        code: echo.code,
+                    }),
+                    tail.to_vec(),
+                )
+            }
+        }
+    }
+
+    pub fn buffered(&self) -> usize {
+        self.0.verif_buffered()
+    }
+}
+
+// ---------------------------------------------------------------------------------------
+// client identities for the hooks in icmp_forwarder.rs
+
+type ReplyTx = mpsc::Sender<(IpAddr, icmp_utils::Message)>;
+type ReplyWeakTx = mpsc::WeakSender<(IpAddr, icmp_utils::Message)>;
+
+static CLIENTS: Mutex<Vec<ReplyWeakTx>> = Mutex::new(Vec::new());
+static EPOCH: Mutex<Option<tokio::time::Instant>> = Mutex::new(None);
+
+/// Called from `IcmpForwarder::make_multiplexer`: clients are numbered in creation order
+pub(crate) fn register_client(tx: &ReplyTx) -> usize {
+    let mut g = CLIENTS.lock().unwrap_or_else(|e| e.into_inner());
+    g.push(tx.downgrade());
+    g.len() - 1
+}
+
+/// Index of the client owning this reply queue (-1 if unknown)
+pub(crate) fn client_of(tx: &ReplyTx) -> i64 {
+    let g = CLIENTS.lock().unwrap_or_else(|e| e.into_inner());
+    for (i, w) in g.iter().enumerate() {
+        if let Some(s) = w.upgrade() {
+            if s.same_channel(tx) {
+                return i as i64;
+            }
+        }
+    }
+    -1
+}
+
+/// Milliseconds of (tokio) time since the forwarder door was created
+pub(crate) fn ms(t: tokio::time::Instant) -> u64 {
+    let g = EPOCH.lock().unwrap_or_else(|e| e.into_inner());
+    match *g {
+        Some(e) => t.saturating_duration_since(e).as_millis() as u64,
+        None => 0,
+    }
+}
+
+pub(crate) fn hex(b: &[u8]) -> String {
+    b.iter().map(|x| format!("{:02x}", x)).collect()
+}
+
+// ---------------------------------------------------------------------------------------
+// the real forwarder
+
+/// One pending request as stored in the forwarder's table
+#[derive(Debug, Clone, PartialEq, Eq)]
+pub struct WaiterView {
+    pub identifier: u16,
+    pub sequence_number: u16,
+    pub data: Vec<u8>,
+    pub original_peer: IpAddr,
+    pub client: i64,
+}
+
+pub struct Forwarder {
+    inner: Arc<icmp_forwarder::IcmpForwarder>,
+}
+
+impl Forwarder {
+    /// A real `IcmpForwarder` bound to `interface`. Resets the client numbering and the time epoch.
+    pub fn new(interface: &str, request_timeout: Duration, queue_capacity: usize, ipv6: bool) -> Self {
+        CLIENTS.lock().unwrap_or_else(|e| e.into_inner()).clear();
+        *EPOCH.lock().unwrap_or_else(|e| e.into_inner()) = Some(tokio::time::Instant::now());
+        let icmp = settings::IcmpSettings::builder()
+            .interface_name(interface)
+            .request_timeout(request_timeout)
+            .recv_message_queue_capacity(queue_capacity)
+            .build()
+            .expect("icmp settings");
+        let s = settings::Settings::builder()
+            .listen_address("127.0.0.1:1")
+            .expect("listen address")
+            .listen_protocols(settings::ListenProtocolSettings {
+                http1: Some(settings::Http1Settings::builder().build()),
+                http2: None,
+                quic: None,
+            })
+            .ipv6_available(ipv6)
+            .icmp(icmp)
+            .build()
+            .expect("settings");
+        Self {
+            inner: Arc::new(icmp_forwarder::IcmpForwarder::new(Arc::new(s))),
+        }
+    }
+
+    /// `IcmpForwarder::listen` (opens the raw sockets, then serves until an error)
+    pub async fn listen(&self) -> io::Result<()> {
+        self.inner.listen().await
+    }
+
+    /// `IcmpForwarder::make_multiplexer` wrapped with the real 7.3 decoder and 7.4 encoder
+    pub fn client(&self) -> io::Result<Client> {
+        let (source, sink) = self.inner.make_multiplexer(log_utils::IdChain::empty())?;
+        let index = CLIENTS.lock().unwrap_or_else(|e| e.into_inner()).len() - 1;
+        Ok(Client {
+            index,
+            source,
+            sink,
+            decoder: http_icmp_codec::Decoder::new(),
+            encoder: http_icmp_codec::Encoder::default(),
+        })
+    }
+
+    /// Snapshot of the waiter table, taken under the `listeners` lock
+    pub fn waiters(&self) -> Vec<WaiterView> {
+        self.inner.verif_waiters()
+    }
+
+    /// (number of distinct deadlines, number of requests queued under them)
+    pub fn deadlines(&self) -> (usize, usize) {
+        self.inner.verif_deadlines()
+    }
+
+    /// Whether both raw sockets are open
+    pub async fn sockets_ready(&self) -> (bool, bool) {
+        self.inner.verif_sockets_ready().await
+    }
+}
+
+pub struct Client {
+    pub index: usize,
+    source: Box<dyn datagram_pipe::Source<Output = forwarder::IcmpDatagram>>,
+    sink: Box<dyn datagram_pipe::Sink<Input = downstream::IcmpDatagram>>,
+    decoder: http_icmp_codec::Decoder,
+    encoder: http_icmp_codec::Encoder,
+}
+
+impl Client {
+    /// Feed one complete 7.3 record through the real decoder and hand the datagram to the
+    /// real `IcmpSink::write`. If `data` is given it replaces the random echo payload the
+    /// decoder generated (the declared size must match). Returns "Sent" / "Dropped".
+    pub async fn send_record(&mut self, record: &[u8], data: Option<&[u8]>) -> io::Result<&'static str> {
+        let mut datagram = match self.decoder.decode_chunk(Bytes::copy_from_slice(record)) {
+            DecodeResult::Complete(d, tail) if tail.is_empty() => d,
+            _ => {
+                return Err(io::Error::new(
+                    io::ErrorKind::InvalidInput,
+                    "verif: not exactly one 7.3 record",
+                ))
+            }
+        };
+        if let Some(data) = data {
+            let replace = |e: &mut icmp_utils::Echo| {
+                assert_eq!(e.data.len(), data.len(), "verif: data size mismatch");
+                e.data = Bytes::copy_from_slice(data);
+            };
+            match &mut datagram.message {
+                icmp_utils::Message::V4(icmp_utils::v4::Message::Echo(e)) => replace(e),
+                icmp_utils::Message::V6(icmp_utils::v6::Message::EchoRequest(e)) => replace(e),
+                _ => unreachable!(),
+            }
+        }
+        match self.sink.write(datagram).await? {
+            datagram_pipe::SendStatus::Sent => Ok("Sent"),
+            datagram_pipe::SendStatus::Dropped => Ok("Dropped"),
+        }
+    }
+
+    /// One report, if one is queued: `IcmpSource::read` followed by the real 7.4 encoder.
+    /// `Some(None)` = a message was queued but the encoder refused it.
+    pub fn try_recv(&mut self) -> Option<Option<Vec<u8>>> {
+        use futures::FutureExt;
+        match tokio::task::unconstrained(self.source.read()).now_or_never() {
+            Some(Ok(d)) => Some(self.encoder.encode_packet(&d).map(|b| b.to_vec())),
+            _ => None,
+        }
+    }
+}
+
+// ---------------------------------------------------------------------------------------
+// hooks called from icmp_forwarder.rs (no-ops unless a recorder is installed)
+
+pub(crate) fn hook_echo_sent(tx: &ReplyTx, peer: IpAddr, ttl: u8, serialized: &[u8]) {
+    if !super::is_recording() {
+        return;
+    }
+    crate::verif_emit!(
+        "EchoSent",
+        "\"client\":{},\"peer\":\"{}\",\"ttl\":{},\"len\":{},\"bytes\":\"{}\"",
+        client_of(tx),
+        peer,
+        ttl,
+        serialized.len(),
+        hex(&serialized[..serialized.len().min(256)])
+    );
+}
+
+#[allow(clippy::too_many_arguments)]
+pub(crate) fn hook_waiter_insert(
+    tx: &ReplyTx,
+    prev: Option<i64>,
+    echo: &icmp_utils::Echo,
+    peer: IpAddr,
+    deadline: tokio::time::Instant,
+    waiters: usize,
+    deadlines: usize,
+) {
+    if !super::is_recording() {
+        return;
+    }
+    crate::verif_emit!(
+        "WaiterInsert",
+        "\"client\":{},\"prev\":{},\"id\":{},\"sn\":{},\"data\":\"{}\",\"peer\":\"{}\",\"now_ms\":{},\"deadline_ms\":{},\"waiters\":{},\"deadlines\":{}",
+        client_of(tx),
+        prev.unwrap_or(-2),
+        echo.identifier,
+        echo.sequence_number,
+        hex(&echo.data[..echo.data.len().min(64)]),
+        peer,
+        ms(tokio::time::Instant::now()),
+        ms(deadline),
+        waiters,
+        deadlines
+    );
+}
+
+pub(crate) fn hook_waiter_expire(
+    echo: &icmp_utils::Echo,
+    found: Option<(&ReplyTx, IpAddr)>,
+    deadline: tokio::time::Instant,
+    waiters: usize,
+) {
+    if !super::is_recording() {
+        return;
+    }
+    crate::verif_emit!(
+        "WaiterExpire",
+        "\"client\":{},\"id\":{},\"sn\":{},\"data\":\"{}\",\"peer\":\"{}\",\"now_ms\":{},\"deadline_ms\":{},\"waiters\":{}",
+        found.map(|(tx, _)| client_of(tx)).unwrap_or(-2),
+        echo.identifier,
+        echo.sequence_number,
+        hex(&echo.data[..echo.data.len().min(64)]),
+        found.map(|(_, p)| p.to_string()).unwrap_or_default(),
+        ms(tokio::time::Instant::now()),
+        ms(deadline),
+        waiters
+    );
+}
+
+/// A received packet that is not reported to any client
+pub(crate) fn hook_dropped(
+    reason: &str,
+    peer: Option<IpAddr>,
+    message: Option<&icmp_utils::Message>,
+    request: Option<&icmp_utils::Echo>,
+    waiters: Option<usize>,
+) {
+    if !super::is_recording() {
+        return;
+    }
+    crate::verif_emit!(
+        "ReplyDropped",
+        "\"reason\":\"{}\",\"peer\":\"{}\",\"type\":{},\"code\":{},\"id\":{},\"sn\":{},\"data\":\"{}\",\"waiters\":{}",
+        reason,
+        peer.map(|p| p.to_string()).unwrap_or_default(),
+        message.map(|m| m.type_id() as i64).unwrap_or(-1),
+        message.map(|m| m.code() as i64).unwrap_or(-1),
+        request.map(|r| r.identifier as i64).unwrap_or(-1),
+        request.map(|r| r.sequence_number as i64).unwrap_or(-1),
+        request.map(|r| hex(&r.data[..r.data.len().min(64)])).unwrap_or_default(),
+        waiters.map(|w| w as i64).unwrap_or(-1)
+    );
+}
+
+/// A received packet for which a waiter was found: queued for `client`, or dropped because
+/// the client's queue refused it (`still_waiting` = false: the waiter was removed)
+pub(crate) fn hook_routed(
+    client: i64,
+    peer: IpAddr,
+    type_id: u8,
+    code: u8,
+    request: &icmp_utils::Echo,
+    still_waiting: bool,
+    waiters: usize,
+) {
+    if !super::is_recording() {
+        return;
+    }
+    crate::verif_emit!(
+        "ReplyRouted",
+        "\"client\":{},\"peer\":\"{}\",\"type\":{},\"code\":{},\"id\":{},\"sn\":{},\"data\":\"{}\",\"queued\":{},\"waiters\":{}",
+        client,
+        peer,
+        type_id,
+        code,
+        request.identifier,
+        request.sequence_number,
+        hex(&request.data[..request.data.len().min(64)]),
+        still_waiting,
+        waiters
+    );
+}
